@@ -3,8 +3,11 @@ import Litep2pVerif.Model.Mss.WebRtc
 /-! Line-protocol driver for the multistream-select models (C03). The stream operations compose the
 message-level machines of `Model/Mss/Negotiate.lean` with the specification-level frame parser of
 `Model/Mss/Framing.lean` over byte pipes, and mirror the test application of the adapter
-(`after` in `src/verif/c03.rs`). The scheduling arguments of an operation are ignored: by
-`framing_transparent` and the confluence of the composition the outcome does not depend on them. -/
+(`after` in `src/verif/c03.rs`). The scheduling arguments of an operation (chunk sizes, `Pending`
+injections, write-behind mode and flush answers of the carrier, order of the application's reads and
+writes) are ignored: by `framing_transparent`, `flush_reaches_peer`, `flush_completes` and the
+confluence of the composition the outcome does not depend on them. The `sink` operation runs the
+byte-level write half (`sinkPollFlush`, … of `Model/Mss/Framing.lean`) poll by poll. -/
 namespace Litep2pVerif.Driver.C03
 open Litep2pVerif Litep2pVerif.Mss Parse
 
@@ -212,6 +215,59 @@ def argBytes (k : String) (ts : List String) : Option Bytes :=
   | none => some []
   | some v => unhx? v
 
+/-! ### `sink`: the write half of `LengthDelimited` over the staging carrier, poll by poll -/
+
+def natList? (s : String) : Option (List Nat) :=
+  if s = "-" || s.isEmpty then some [] else (s.splitOn ",").mapM String.toNat?
+
+def showWrite (r : WriteRes) (s : SinkIo) : String :=
+  (match r with | .pending => "P/" | .ready => "R/") ++ toString s.c.visible.length
+
+/-- One operation of `sink`; `none` = malformed. The flag says whether `into_reader` has happened. -/
+def sinkStep (s : SinkIo) (reader : Bool) (op : String) : Option (SinkIo × Bool × String) :=
+  if op = "p" then let r := sinkPollFlush s; some (r.1, reader, showWrite r.2 r.1)
+  else if op = "c" then let r := sinkPollClose s; some (r.1, reader, showWrite r.2 r.1)
+  else if op = "r" then (if reader then none else some (s, true, "ok"))
+  else if op.startsWith "s:" then
+    if reader then none
+    else
+      match unhx? (op.drop 2).toString with
+      | none => none
+      | some item =>
+        match sinkPollReady s with
+        | (s', .pending) => some (s', reader, "busy")
+        | (s', .ready) =>
+          match startSend s'.w item with
+          | .ok w => some ({ s' with w := w }, reader, "ok")
+          | .error e => some (s', reader, "err:" ++ perr (frameErr e))
+  else if op.startsWith "w:" then
+    if !reader then none
+    else
+      match unhx? (op.drop 2).toString with
+      | none => none
+      | some buf =>
+        match readerPollWrite s buf with
+        | (s', none) => some (s', reader, "P/" ++ toString s'.c.visible.length)
+        | (s', some k) => some (s', reader, "W" ++ toString k ++ "/" ++ toString s'.c.visible.length)
+  else none
+
+def sinkRun : List String → SinkIo → Bool → List String → Option (SinkIo × List String)
+  | [], s, _, acc => some (s, acc.reverse)
+  | op :: ops, s, reader, acc =>
+    match sinkStep s reader op with
+    | none => none
+    | some (s', reader', o) => sinkRun ops s' reader' (o :: acc)
+
+/-- The adapter's carrier takes everything / completes the flush once its scripts are used up. -/
+def sinkOp (wb : Bool) (ws fs : List Nat) (ops : List String) : String :=
+  let s : SinkIo :=
+    { c := { wb := wb }, ws := ws ++ List.replicate (ops.length + 1) (2 ^ 30),
+      fs := fs.map (· != 0) ++ List.replicate (ops.length + 1) true }
+  match sinkRun ops s false [] with
+  | none => "bad-op"
+  | some (s', obs) =>
+    (if obs.isEmpty then "-" else joinWith "," obs) ++ " vis=" ++ hx s'.c.visible ++ " acc=" ++ hx (s'.c.visible ++ s'.c.staged)
+
 structure State where
   dialer : Option WDialer := none
 
@@ -312,6 +368,13 @@ def step (st : State) (line : String) : State × String :=
         | some (main, fb) =>
           (st, "ok to=" ++ toString ((installed.map (·.1)).idxOf main) ++ " main=" ++ hx main ++ " fb=" ++
             (match fb with | none => "none" | some f => hx f) ++ n)
+    | _, _ => (st, "bad-op")
+  | "sink" :: rest =>
+    match natList? ((arg? "w" rest).getD "-"), natList? ((arg? "f" rest).getD "-") with
+    | some ws, some fs =>
+      let ops := ((arg? "ops" rest).getD "-")
+      let ops := if ops = "-" then [] else (ops.splitOn ",").filter (fun o => !o.isEmpty)
+      (st, sinkOp (arg? "wb" rest = some "1") ws fs ops)
     | _, _ => (st, "bad-op")
   | "negotiate" :: rest =>
     match version? (arg? "ver" rest), argList "dialer" rest, argList "listener" rest, argBytes "dpay" rest,
